@@ -348,6 +348,49 @@ pub fn run(ctx: &Ctx) {
             ));
         }
     }
+    // 4. the date: the time-related checks are run again "at" other dates through the clock seam
+    // (target/clockshim.so shifts CLOCK_REALTIME for the library and the harness alike)
+    let mut clock_note = "not applicable to this property".to_string();
+    if matches!(ctx.id.as_str(), "C02" | "C03" | "C07" | "C12" | "C15" | "C17" | "C20") {
+        let shim = root().join("target").join("clockshim.so");
+        let real_now = std::time::SystemTime::now().duration_since(std::time::UNIX_EPOCH).map(|d| d.as_secs()).unwrap_or(0) as i64;
+        let shifted = |off: i64| -> Option<i64> {
+            let o = Command::new(exe("release")).args(["child", "now"]).env("LD_PRELOAD", &shim).env("FPVERIF_CLOCK_OFFSET", off.to_string()).output().ok()?;
+            String::from_utf8_lossy(&o.stdout).trim().parse().ok()
+        };
+        if !shim.exists() {
+            clock_note = "clock seam not built (no C compiler): not run".into();
+        } else if shifted(1_000_000).map_or(true, |t| (t - real_now - 1_000_000).abs() > 5) {
+            clock_note = "clock seam has no effect on this binary: not run".into();
+        } else {
+            let day = 86_400i64;
+            let mut targets: Vec<(&str, i64)> = vec![
+                ("2038-01-19 (2^31 s)", (1i64 << 31) + 5),
+                ("2106-02-07 (2^32 s)", (1i64 << 32) + 7),
+                ("two seconds before midnight UTC", (real_now / day + 1) * day - 2),
+            ];
+            if ctx.tier == speclib::report::Tier::Thorough {
+                targets.push(("2001-09-09 (10^9 s)", 1_000_000_000));
+                targets.push(("2028-02-29 12:00", 1_835_438_400));
+                targets.push(("year 2262 (2^63 ns)", 9_223_372_037 + 3));
+                targets.push(("year 5138 (10^11 s)", 100_000_000_000));
+            }
+            let mut labels = vec![];
+            for (label, t) in targets {
+                reruns += 1;
+                labels.push(label);
+                let off = (t - real_now).to_string();
+                for (sig, text) in rerun_inner(ctx, &format!("clock-{}", t), &[("LD_PRELOAD", shim.to_str().unwrap_or("")), ("FPVERIF_CLOCK_OFFSET", off.as_str())], None) {
+                    found.push(Violation::new(
+                        format!("{sig}:under-environment:date"),
+                        format!("with the wall clock at {label} (clock seam, offset {off} s): {text}"),
+                        json!({"kind": "environment", "clock_offset": off, "date": label}),
+                    ));
+                }
+            }
+            clock_note = format!("check re-run with the wall clock at: {}", labels.join("; "));
+        }
+    }
     let _ = std::fs::remove_dir_all(&dir);
     info.push((
         "environment_probe".into(),
@@ -358,6 +401,7 @@ pub fn run(ctx: &Ctx) {
             "syscall_discovery": if have_strace { "strace -e trace=%file,getcwd,chdir" } else { "unavailable" },
             "file_system_calls_made_by_the_library": fs_calls,
             "log_level_sensitive": log_sensitive.is_some(),
+            "clock_seam": clock_note,
             "checks_rerun_under_a_variation": reruns,
         }),
     ));
